@@ -38,6 +38,15 @@ def cdfApprox (x mu sg : Float) : Float :=
 /-- `gauss <volume> <repeatNs> <freqNs> <peakNs> <stddevNs> <weights> <startUnixNs> <n>` (floats as bits);
 impl: `<cdfHi> <cdf0> <outs> <pdfs>` | `err` -/
 def gauss (args impl : List String) : Option (String × String) := do
+  -- an optional ninth argument `<k>:<w>`: from tick k on (a window boundary) the timestamps lie w whole windows later —
+  -- the process was suspended, or a dry run samples coarsely; the weight of a window depends on the clock, not on
+  -- how many windows this calculator has seen
+  let (args, jumpAt, jumpBy) : List String × Nat × Int := match args with
+    | [a, b, c, d, e, f, g, h, j] =>
+      (match j.splitOn ":" with
+       | [k, w] => ([a, b, c, d, e, f, g, h], k.toNat?.getD 0, (w.toInt?.getD 0))
+       | _ => ([a, b, c, d, e, f, g, h], 0, 0))
+    | l => (l, 0, 0)
   match args with
   | [vol, rep, freq, peak, sd, ws, start, n] =>
     let vol ← floatOfHex vol
@@ -57,7 +66,7 @@ def gauss (args impl : List String) : Option (String × String) := do
         let mut mo : Array Int := #[]
         let mut rs : Array Float := #[]
         for k in [0:n] do
-          let t := start + unixToAbs + (k : Int) * freq
+          let t := start + unixToAbs + (k : Int) * freq + (if jumpBy ≠ 0 ∧ k ≥ jumpAt then jumpBy * rep else 0)
           let pdf := pdfs.getD k 0.0
           let rate0 := pdf * c.multiplier
           let rate := if ws.size > 0 then
@@ -73,7 +82,7 @@ def gauss (args impl : List String) : Option (String × String) := do
       -- the density values themselves: e^(−(x−μ)²/(2σ²)) / (σ·√(2π)) at the tick's offset in its window (relative 1e-9:
       -- Go's and libm's exp may differ in the last bits)
       let pdfBad : Option Nat := (List.range n).find? fun k =>
-        let t := start + unixToAbs + (k : Int) * freq
+        let t := start + unixToAbs + (k : Int) * freq + (if jumpBy ≠ 0 ∧ k ≥ jumpAt then jumpBy * rep else 0)
         let x := Float.ofInt (t % rep)
         let mu := Float.ofInt peak; let sg := Float.ofInt sd
         let want := Float.exp (-((x - mu) * (x - mu)) / (2.0 * sg * sg)) / (sg * Float.sqrt (2.0 * 3.141592653589793))
@@ -108,7 +117,7 @@ def gauss (args impl : List String) : Option (String × String) := do
           -- window (peak ± 4σ) and is resolved by the ticks (σ ≥ tick): then the discretisation error is far below 1 %
           let inside := decide (peak - 4 * sd ≥ 0) && decide (peak + 4 * sd ≤ rep) && decide (sd ≥ freq)
           if inside then
-            let t := start + unixToAbs + ((lo : Nat) : Int) * freq
+            let t := start + unixToAbs + ((lo : Nat) : Int) * freq + (if jumpBy ≠ 0 ∧ lo ≥ jumpAt then jumpBy * rep else 0)
             let share : Float := if ws.size > 0 then
                 match weightIndex t rep ws.size with
                 | some i => ws.getD i 0.0 * Float.ofNat ws.size / (ws.foldl (· + ·) 0.0)
